@@ -218,14 +218,14 @@ Section Rel.
     | Ok (v1, y1, d1), Ok (v2, y2, d2) =>
         v1 = v2 /\ nf y1 = nf x1 /\ nf y2 = nf x2 /\ (F || ne d1 = F || ne d2)
         /\ cohx (F || ne d1) y1 /\ cohx (F || ne d2) y2
-    | Err _, Err _ => True
+    | Err e1, Err e2 => e1 = e2
     | Crash s1, Crash s2 => s1 = s2
     | OutOfFuel, OutOfFuel => True
     | _, _ => False
     end.
 End Rel.
 
-Lemma R_bind {V X V' X' : Type} (nf : X -> X) cohx (nf' : X' -> X') cohx' F F' x1 x2 z1 z2
+Lemma R_bind {V X V' X' : Type} (nf : X -> X) (cohx : bool -> X -> Prop) (nf' : X' -> X') (cohx' : bool -> X' -> Prop) F F' x1 x2 z1 z2
       (r1 r2 : res (V * X * list string)) (k1 k2 : V * X * list string -> res (V' * X' * list string)) :
   R nf cohx F x1 x2 r1 r2 ->
   (forall v y1 y2 d1 d2,
@@ -253,23 +253,23 @@ Qed.
 
 (* cache_coherent: the stored value is returned only for equal operands, and then it is the value
    a recomputation gives; with other operands the operator is invoked again *)
+Lemma zl_eqb_refl a : zl_eqb a a = true.
+Proof. induction a; simpl; [reflexivity|]. rewrite Z.eqb_refl. exact IHa. Qed.
+
 Lemma use_cache_hit c args inv v c' d :
   use_cache false c args inv = Ok (v, c', d) ->
-  (exists args0, c = Some (args0, v) /\ args0 = args /\ c' = c /\ d = [])
-  \/ (exists ids, inv args = Ok (v, ids) /\ c' = Some (args, v) /\ d = ids
+  (c = Some (args, v) /\ c' = c /\ d = [])
+  \/ (inv args = Ok (v, d) /\ c' = Some (args, v)
       /\ (forall a0 v0, c = Some (a0, v0) -> a0 <> args)).
 Proof.
   unfold use_cache. destruct c as [[args0 v0]|].
   - destruct (zl_eqb args0 args) eqn:E.
-    + intros H. inversion H; subst. left. exists args0. apply zl_eqb_eq in E. auto.
+    + intros H. inversion H. left. apply zl_eqb_eq in E. subst. auto.
     + intros H. destruct (inv args) as [[v1 ids]| | |] eqn:Ei; simpl in H; try discriminate.
-      inversion H; subst. right. exists ids. repeat split; auto.
-      intros a0 w0 Hc Ha. inversion Hc; subst.
-      assert (X : zl_eqb args args = true).
-      { clear. induction args; simpl; [reflexivity|]. rewrite Z.eqb_refl. exact IHargs. }
-      congruence.
+      inversion H. right. repeat split; auto.
+      intros a0 w0 Hc Ha. inversion Hc. subst. rewrite zl_eqb_refl in E. discriminate.
   - intros H. destruct (inv args) as [[v1 ids]| | |] eqn:Ei; simpl in H; try discriminate.
-    inversion H; subst. right. exists ids. repeat split; auto. intros; discriminate.
+    inversion H. right. repeat split; auto. intros; discriminate.
 Qed.
 
 Lemma use_cache_R pure inv F c1 c2 args :
@@ -281,7 +281,6 @@ Proof.
   - destruct (inv args) as [[v ids]| | |]; simpl; auto.
     repeat split; intros; discriminate.
   - specialize (H1 eq_refl). specialize (H2 eq_refl).
-    assert (Run : forall ca cb : cache, (exists v ids, inv args = Ok (v, ids)) \/ True -> True) by auto.
     destruct (inv args) as [[v ids]| | |] eqn:Ei.
     + (* recomputation succeeds with (v, ids) *)
       assert (Hit : forall c, cache_ok F inv c ->
@@ -298,7 +297,11 @@ Proof.
         try (destruct ids; simpl; [destruct F; reflexivity|]);
         try (destruct Hf1 as [X|X]; [discriminate | rewrite X; reflexivity]);
         try (destruct Hf2 as [X|X]; [discriminate | rewrite X; reflexivity]);
-        try (destruct F; reflexivity).
+        try (destruct F; reflexivity);
+        try (intros _; simpl in H1; destruct H1 as [i1 [E1 X1]]; exists i1; split;
+             [exact E1 | destruct X1; [left; assumption | right; destruct F; simpl; congruence]]);
+        try (intros _; simpl in H2; destruct H2 as [i2 [E2 X2]]; exists i2; split;
+             [exact E2 | destruct X2; [left; assumption | right; destruct F; simpl; congruence]]).
     + (* recomputation reports and raises: a coherent cache cannot hold these operands *)
       assert (Miss : forall c, cache_ok F inv c -> forall a0 v0, c = Some (a0, v0) -> zl_eqb a0 args = false).
       { intros c Hc a0 v0 E. subst c. destruct (zl_eqb a0 args) eqn:Z0; [|reflexivity].
@@ -315,4 +318,931 @@ Proof.
         apply zl_eqb_eq in Z0. subst a0. destruct Hc as [ids0 [E0 _]]. congruence. }
       destruct c1 as [[a1 v1]|]; destruct c2 as [[a2 v2]|]; simpl;
         try rewrite (Miss _ H1 _ _ eq_refl); try rewrite (Miss _ H2 _ _ eq_refl); simpl; auto.
+Qed.
+
+(* ============================================================================================ *)
+(* eval does not depend on what is written on the tree *)
+Lemma R_ok {V X : Type} (nf : X -> X) (cohx : bool -> X -> Prop) F x1 x2 (v : V) y1 y2 (d1 d2 : list string) :
+  nf y1 = nf x1 -> nf y2 = nf x2 -> (F || ne d1 = F || ne d2) ->
+  cohx (F || ne d1) y1 -> cohx (F || ne d2) y2 ->
+  R nf cohx F x1 x2 (Ok (v, y1, d1)) (Ok (v, y2, d2)).
+Proof. intros. simpl. auto 10. Qed.
+
+Ltac coh_weaken :=
+  match goal with
+  | H : coh ?A ?t |- coh ?B ?t => apply (coh_le A B t); [|exact H]; intro; nebool; allbool
+  end.
+
+Lemma eval_R env dot F : forall t1 t2,
+  strip t1 = strip t2 -> coh F t1 -> coh F t2 ->
+  R strip coh F t1 t2 (eval env dot t1) (eval env dot t2).
+Proof.
+  induction t1; intros t2 Hs C1 C2; destruct t2; simpl in Hs; try discriminate; inversion Hs; subst; clear Hs.
+  - (* Num *)
+    cbn [eval]. simpl in C1, C2.
+    destruct bad0, reported, reported0; simpl; repeat split; auto; try discriminate;
+      try (rewrite C1 by reflexivity; reflexivity); try (rewrite C2 by reflexivity; reflexivity);
+      try (intros; destruct F; reflexivity).
+  - (* Chr *)
+    cbn [eval]. simpl in C1, C2.
+    destruct C1 as [C1|C1], C2 as [C2|C2]; subst; simpl; repeat split; auto.
+  - (* Sym *)
+    cbn [eval]. destruct (if nec_label0 then None else reg_of_name name0); [reflexivity|].
+    destruct (env name0); simpl; repeat split; auto.
+  - (* Dot *)
+    cbn [eval]. simpl. repeat split; auto.
+  - (* Paren *)
+    cbn [eval]. simpl in C1, C2.
+    eapply R_bind; [apply (IHt1 t2 H1 C1 C2)|].
+    intros v y1 y2 d1 d2 N1 N2 B K1 K2. apply R_ok; simpl; auto; congruence.
+  - (* Infix *)
+    cbn [eval]. simpl in C1, C2. destruct C1 as [Cl1 [Cr1 Cc1]]. destruct C2 as [Cl2 [Cr2 Cc2]].
+    eapply R_bind; [apply (IHt1_1 t2_1 H1 Cl1 Cl2)|].
+    intros a l1 l2 d1 e1 Nl1 Nl2 Bl Kl1 Kl2.
+    eapply R_bind; [apply (IHt1_2 t2_2 H2 Cr1 Cr2)|].
+    intros b r1 r2 d2 e2 Nr1 Nr2 Br Kr1 Kr2.
+    eapply R_bind; [apply (use_cache_R (is_pure GenOperators.KInfix op0) (invoke_infix op0) F c c0 [a; b] Cc1 Cc2)|].
+    intros v k1 k2 d3 e3 _ _ Bc Kc1 Kc2.
+    apply R_ok; simpl; try congruence.
+    + nebool; allbool.
+    + repeat split; try coh_weaken. intros P. eapply cache_ok_le; [|apply (Kc1 P)]. intro; nebool; allbool.
+    + repeat split; try coh_weaken. intros P. eapply cache_ok_le; [|apply (Kc2 P)]. intro; nebool; allbool.
+  - (* Prefix *)
+    cbn [eval]. simpl in C1, C2. destruct C1 as [Cl1 Cc1]. destruct C2 as [Cl2 Cc2].
+    eapply R_bind; [apply (IHt1 t2 H1 Cl1 Cl2)|].
+    intros a l1 l2 d1 e1 Nl1 Nl2 Bl Kl1 Kl2.
+    eapply R_bind; [apply (use_cache_R (is_pure GenOperators.KPrefix op0) (invoke_prefix op0) F c c0 [a] Cc1 Cc2)|].
+    intros v k1 k2 d3 e3 _ _ Bc Kc1 Kc2.
+    apply R_ok; simpl; try congruence.
+    + nebool; allbool.
+    + repeat split; try coh_weaken. intros P. eapply cache_ok_le; [|apply (Kc1 P)]. intro; nebool; allbool.
+    + repeat split; try coh_weaken. intros P. eapply cache_ok_le; [|apply (Kc2 P)]. intro; nebool; allbool.
+  - (* Postfix *)
+    cbn [eval]. simpl in C1, C2. destruct C1 as [Cl1 Cc1]. destruct C2 as [Cl2 Cc2].
+    eapply R_bind; [apply (IHt1 t2 H1 Cl1 Cl2)|].
+    intros a l1 l2 d1 e1 Nl1 Nl2 Bl Kl1 Kl2.
+    eapply R_bind; [apply (use_cache_R (is_pure GenOperators.KPostfix op0) (invoke_postfix op0) F c c0 [a] Cc1 Cc2)|].
+    intros v k1 k2 d3 e3 _ _ Bc Kc1 Kc2.
+    apply R_ok; simpl; try congruence.
+    + nebool; allbool.
+    + repeat split; try coh_weaken. intros P. eapply cache_ok_le; [|apply (Kc1 P)]. intro; nebool; allbool.
+    + repeat split; try coh_weaken. intros P. eapply cache_ok_le; [|apply (Kc2 P)]. intro; nebool; allbool.
+  - (* Call *)
+    cbn [eval]. simpl in C1, C2. destruct C1 as [Cl1 [Cr1 Cc1]]. destruct C2 as [Cl2 [Cr2 Cc2]].
+    eapply R_bind; [apply (IHt1_1 t2_1 H0 Cl1 Cl2)|].
+    intros a l1 l2 d1 e1 Nl1 Nl2 Bl Kl1 Kl2.
+    eapply R_bind; [apply (IHt1_2 t2_2 H1 Cr1 Cr2)|].
+    intros b r1 r2 d2 e2 Nr1 Nr2 Br Kr1 Kr2.
+    eapply R_bind; [apply (use_cache_R (is_pure GenOperators.KInfix "$") (invoke_infix "$") F c c0 [a; b] Cc1 Cc2)|].
+    intros v k1 k2 d3 e3 _ _ Bc Kc1 Kc2.
+    apply R_ok; simpl; try congruence.
+    + nebool; allbool.
+    + repeat split; try coh_weaken. intros P. eapply cache_ok_le; [|apply (Kc1 P)]. intro; nebool; allbool.
+    + repeat split; try coh_weaken. intros P. eapply cache_ok_le; [|apply (Kc2 P)]. intro; nebool; allbool.
+Qed.
+
+(* ============================================================================================ *)
+(* RegisterModeOperandStub.encode *)
+Lemma plain_plan_strip t : plain_plan (strip t) = plain_plan t.
+Proof.
+  unfold plain_plan. rewrite regp_strip, paren_reg_strip.
+  destruct (regp t); [reflexivity|]. destruct (paren_reg t); [reflexivity|].
+  destruct t; try reflexivity.
+  - (* Prefix *)
+    cbn [strip]. rewrite regp_strip, paren_reg_strip.
+    destruct (op =? "@")%string.
+    + destruct (regp t); [reflexivity|].
+      destruct t; try reflexivity; cbn [strip]; try rewrite paren_reg_strip; reflexivity.
+    + reflexivity.
+  - (* Postfix *)
+    cbn [strip]. rewrite paren_reg_strip. reflexivity.
+  - (* Call *)
+    cbn [strip]. rewrite regp_strip. destruct (regp t2); [|reflexivity].
+    destruct t1; reflexivity.
+Qed.
+
+Definition hoisted_plan (off reg : tree) : Z * ekind * list dir * option tree :=
+  match regp reg with
+  | Some r =>
+      match off with
+      | Prefix op x c1 =>
+          if String.eqb op "@" then (56 + r, EGai, [DOperand], Some off)
+          else (48 + r, EGai, [], Some off)
+      | _ => (48 + r, EGai, [], Some off)
+      end
+  | None => (55, ERel, [], None)
+  end.
+
+Definition is_spine_top (t : tree) : bool :=
+  match t with Infix _ _ _ _ | Prefix _ _ _ => true | _ => false end.
+
+Lemma classify_spec t :
+  classify t = if is_spine_top t
+               then match spine t with
+                    | Some (off, reg) => hoisted_plan off reg
+                    | None => (plain_plan t, None)
+                    end
+               else (plain_plan t, None).
+Proof.
+  destruct t; try reflexivity.
+  - unfold classify. rewrite hoist_spec. cbn [is_call is_spine_top].
+    destruct (spine (Infix op t1 t2 c)) as [[off reg]|]; reflexivity.
+  - unfold classify. rewrite hoist_spec. cbn [is_call is_spine_top].
+    destruct (spine (Prefix op t c)) as [[off reg]|]; reflexivity.
+Qed.
+
+Definition strip_plan (p : Z * ekind * list dir * option tree) : Z * ekind * list dir * option tree :=
+  let '(m, k, path, h) := p in (m, k, path, option_map strip h).
+
+Lemma is_spine_top_strip t : is_spine_top (strip t) = is_spine_top t.
+Proof. destruct t; reflexivity. Qed.
+
+Lemma classify_strip t : classify (strip t) = strip_plan (classify t).
+Proof.
+  rewrite !classify_spec, is_spine_top_strip, spine_strip, plain_plan_strip.
+  destruct (is_spine_top t).
+  - destruct (spine t) as [[off reg]|].
+    + unfold hoisted_plan. rewrite regp_strip. destruct (regp reg); [|reflexivity].
+      destruct off; try reflexivity. cbn [strip]. destruct (op =? "@")%string; reflexivity.
+    + destruct (plain_plan t) as [[m k] p]. reflexivity.
+  - destruct (plain_plan t) as [[m k] p]. reflexivity.
+Qed.
+
+Lemma classify_hoisted t m k p off :
+  classify t = (m, k, p, Some off) -> exists reg, spine t = Some (off, reg).
+Proof.
+  rewrite classify_spec. destruct (is_spine_top t).
+  - destruct (spine t) as [[o reg]|].
+    + unfold hoisted_plan. destruct (regp reg); [|discriminate].
+      intros H. exists reg.
+      destruct o; try (inversion H; reflexivity).
+      destruct (op =? "@")%string; inversion H; reflexivity.
+    + destruct (plain_plan t) as [[m0 k0] p0]. discriminate.
+  - destruct (plain_plan t) as [[m0 k0] p0]. discriminate.
+Qed.
+
+Lemma coh_get F p : forall t, coh F t -> coh F (get p t).
+Proof.
+  induction p as [|d p IH]; intros t H; [exact H|].
+  destruct d, t; simpl in *; auto; apply IH; tauto.
+Qed.
+
+Lemma coh_put F p : forall t x, coh F t -> coh F x -> coh F (put p t x).
+Proof.
+  induction p as [|d p IH]; intros t x Ht Hx; [exact Hx|].
+  destruct d, t; simpl in *; auto.
+  - destruct Ht; split; auto.
+  - destruct Ht; split; auto.
+  - destruct Ht as [A [B D]]; repeat split; auto.
+Qed.
+
+Lemma spine_coh F t : forall off reg, spine t = Some (off, reg) -> coh F t -> coh F off.
+Proof.
+  induction t; intros off reg Hs Hc; simpl in Hs; try discriminate.
+  - destruct (spine t2) as [[o r]|] eqn:E; [|discriminate]. inversion Hs; subst.
+    simpl in *. destruct Hc as [A [B D]]. repeat split; auto. eapply IHt2; eauto.
+  - destruct (spine t) as [[o r]|] eqn:E; [|discriminate]. inversion Hs; subst.
+    simpl in *. destruct Hc as [A D]. split; auto. eapply IHt; eauto.
+  - destruct (is_regish t2); [|discriminate]. inversion Hs; subst. simpl in Hc. tauto.
+Qed.
+
+Lemma unhoist_coh F t : forall x, coh F t -> coh F x -> coh F (unhoist t x).
+Proof.
+  induction t; intros x Ht Hx; simpl; auto.
+  - destruct x; auto. simpl in *. destruct Ht as [A [B D]]. destruct Hx as [A' [B' D']]. repeat split; auto.
+  - destruct x; auto. simpl in *. destruct Ht as [A D]. destruct Hx as [A' D']. split; auto.
+  - simpl in *. destruct Ht as [A [B D]]. repeat split; auto.
+Qed.
+
+(* evaluation never changes the shape of the tree (no coherence needed) *)
+Lemma eval_shape env dot t : forall rv t' rd, eval env dot t = Ok (rv, t', rd) -> strip t' = strip t.
+Proof.
+  induction t; intros rv t' rd H; cbn [eval] in H.
+  - destruct (bad8 && negb reported); inversion H; reflexivity.
+  - destruct evaluated; inversion H; reflexivity.
+  - destruct (if nec_label then None else reg_of_name name); [discriminate|].
+    destruct (env name); inversion H; reflexivity.
+  - inversion H; reflexivity.
+  - apply bind_ok_inv in H. destruct H as [[[a e'] d1] [E H]]. inversion H; subst.
+    simpl. rewrite (IHt _ _ _ E). reflexivity.
+  - apply bind_ok_inv in H. destruct H as [[[a l'] d1] [E1 H]].
+    apply bind_ok_inv in H. destruct H as [[[b r'] d2] [E2 H]].
+    apply bind_ok_inv in H. destruct H as [[[w c'] d3] [E3 H]]. inversion H; subst.
+    simpl. rewrite (IHt1 _ _ _ E1), (IHt2 _ _ _ E2). reflexivity.
+  - apply bind_ok_inv in H. destruct H as [[[a l'] d1] [E1 H]].
+    apply bind_ok_inv in H. destruct H as [[[w c'] d3] [E3 H]]. inversion H; subst.
+    simpl. rewrite (IHt _ _ _ E1). reflexivity.
+  - apply bind_ok_inv in H. destruct H as [[[a l'] d1] [E1 H]].
+    apply bind_ok_inv in H. destruct H as [[[w c'] d3] [E3 H]]. inversion H; subst.
+    simpl. rewrite (IHt _ _ _ E1). reflexivity.
+  - apply bind_ok_inv in H. destruct H as [[[a l'] d1] [E1 H]].
+    apply bind_ok_inv in H. destruct H as [[[b r'] d2] [E2 H]].
+    apply bind_ok_inv in H. destruct H as [[[w c'] d3] [E3 H]]. inversion H; subst.
+    simpl. rewrite (IHt1 _ _ _ E1), (IHt2 _ _ _ E2). reflexivity.
+Qed.
+
+Lemma gai_shape bits uns env dot t w t' d : gai bits uns env dot t = Ok (w, t', d) -> strip t' = strip t.
+Proof.
+  unfold gai. intros H. apply bind_ok_inv in H. destruct H as [[[v s] d1] [E H]].
+  apply bind_ok_inv in H. destruct H as [w0 [_ H]]. inversion H; subst. eapply eval_shape; eauto.
+Qed.
+
+(* hoist_pure: compiling an operand leaves the stored operand as it was, up to caches and flags.
+   (The pre-fix code left the hoisted tree there.) *)
+Lemma compile_rm_shape env dot rel t m ext t' d :
+  compile_rm env dot rel t = Ok (m, ext, t', d) -> strip t' = strip t.
+Proof.
+  unfold compile_rm. destruct (has_percent t); [discriminate|].
+  destruct (classify t) as [[[mode kind] path] h] eqn:Ec.
+  assert (Back : forall s', strip s' = strip (get path (match h with Some off => off | None => t end)) ->
+            strip (match h with Some off => unhoist t (put path off s') | None => put path t s' end) = strip t).
+  { intros s' Hs. destruct h as [off|].
+    - destruct (classify_hoisted _ _ _ _ _ Ec) as [reg Hsp].
+      eapply unhoist_strip; [exact Hsp|]. apply put_strip. exact Hs.
+    - apply put_strip. exact Hs. }
+  destruct kind.
+  - intros H; inversion H; reflexivity.
+  - intros H; inversion H; reflexivity.
+  - intros H. apply bind_ok_inv in H. destruct H as [[[w s'] d1] [E H]]. inversion H; subst.
+    apply Back. eapply gai_shape; eauto.
+  - intros H. apply bind_ok_inv in H. destruct H as [[[w s'] d1] [E H]]. inversion H; subst.
+    apply Back. eapply eval_shape; eauto.
+Qed.
+
+Lemma gai_R bits uns env dot F t1 t2 :
+  strip t1 = strip t2 -> coh F t1 -> coh F t2 ->
+  R strip coh F t1 t2 (gai bits uns env dot t1) (gai bits uns env dot t2).
+Proof.
+  intros Hs C1 C2. unfold gai.
+  eapply R_bind; [apply (eval_R env dot F t1 t2 Hs C1 C2)|].
+  intros v y1 y2 d1 d2 N1 N2 B K1 K2.
+  destruct (GenGetAsInt.get_as_int bits uns None v); simpl; auto 10.
+Qed.
+
+Definition opnf := strip.
+
+Lemma compile_rm_R env dot rel F t1 t2 :
+  strip t1 = strip t2 -> coh F t1 -> coh F t2 ->
+  R strip coh F t1 t2 (compile_rm env dot rel t1) (compile_rm env dot rel t2).
+Proof.
+  intros Hs C1 C2. unfold compile_rm.
+  assert (Hp : has_percent t1 = has_percent t2).
+  { rewrite <- (has_percent_strip t1), <- (has_percent_strip t2), Hs. reflexivity. }
+  rewrite Hp. destruct (has_percent t2); [reflexivity|].
+  pose proof (classify_strip t1) as S1. pose proof (classify_strip t2) as S2. rewrite Hs in S1. rewrite S1 in S2.
+  destruct (classify t1) as [[[m1 k1] p1] h1] eqn:E1. destruct (classify t2) as [[[m2 k2] p2] h2] eqn:E2.
+  simpl in S2. inversion S2; subst m2 k2 p2. clear S2 S1. rename H3 into Hh.
+  set (w1 := match h1 with Some off => off | None => t1 end).
+  set (w2 := match h2 with Some off => off | None => t2 end).
+  assert (Hw : strip w1 = strip w2).
+  { unfold w1, w2. destruct h1, h2; simpl in Hh; try discriminate; [inversion Hh; reflexivity | exact Hs]. }
+  assert (Cw1 : coh F w1).
+  { unfold w1. destruct h1 as [off|]; [|exact C1].
+    destruct (classify_hoisted _ _ _ _ _ E1) as [reg Hsp]. eapply spine_coh; eauto. }
+  assert (Cw2 : coh F w2).
+  { unfold w2. destruct h2 as [off|]; [|exact C2].
+    destruct (classify_hoisted _ _ _ _ _ E2) as [reg Hsp]. eapply spine_coh; eauto. }
+  assert (Hsub : strip (get p1 w1) = strip (get p1 w2)) by (rewrite !get_strip, Hw; reflexivity).
+  assert (Back1 : forall F' s', (F = true -> F' = true) -> strip s' = strip (get p1 w1) -> coh F' s' ->
+            strip (match h1 with Some off => unhoist t1 (put p1 off s') | None => put p1 t1 s' end) = strip t1
+            /\ coh F' (match h1 with Some off => unhoist t1 (put p1 off s') | None => put p1 t1 s' end)).
+  { intros F' s' L Hs' Cs'. unfold w1 in *. destruct h1 as [off|].
+    - destruct (classify_hoisted _ _ _ _ _ E1) as [reg Hsp]. split.
+      + eapply unhoist_strip; [exact Hsp|]. apply put_strip. exact Hs'.
+      + apply unhoist_coh; [eapply coh_le; eauto|]. apply coh_put; [eapply coh_le; eauto | exact Cs'].
+    - split; [apply put_strip; exact Hs' | apply coh_put; [eapply coh_le; eauto | exact Cs']]. }
+  assert (Back2 : forall F' s', (F = true -> F' = true) -> strip s' = strip (get p1 w2) -> coh F' s' ->
+            strip (match h2 with Some off => unhoist t2 (put p1 off s') | None => put p1 t2 s' end) = strip t2
+            /\ coh F' (match h2 with Some off => unhoist t2 (put p1 off s') | None => put p1 t2 s' end)).
+  { intros F' s' L Hs' Cs'. unfold w2 in *. destruct h2 as [off|].
+    - destruct (classify_hoisted _ _ _ _ _ E2) as [reg Hsp]. split.
+      + eapply unhoist_strip; [exact Hsp|]. apply put_strip. exact Hs'.
+      + apply unhoist_coh; [eapply coh_le; eauto|]. apply coh_put; [eapply coh_le; eauto | exact Cs'].
+    - split; [apply put_strip; exact Hs' | apply coh_put; [eapply coh_le; eauto | exact Cs']]. }
+  destruct k1.
+  - apply R_ok; auto; (eapply coh_le; [|eassumption]; intro; allbool).
+  - apply R_ok; auto; (eapply coh_le; [|eassumption]; intro; allbool).
+  - eapply R_bind; [apply (gai_R (Some 16) false env dot F _ _ Hsub (coh_get F p1 w1 Cw1) (coh_get F p1 w2 Cw2))|].
+    intros v y1 y2 d1 d2 N1 N2 B K1 K2.
+    destruct (Back1 (F || ne d1) y1) as [A1 A2]; [intro; allbool | exact N1 | exact K1 |].
+    destruct (Back2 (F || ne d2) y2) as [B1 B2]; [intro; allbool | exact N2 | exact K2 |].
+    apply R_ok; auto.
+  - eapply R_bind; [apply (eval_R env dot F _ _ Hsub (coh_get F p1 w1 Cw1) (coh_get F p1 w2 Cw2))|].
+    intros v y1 y2 d1 d2 N1 N2 B K1 K2.
+    destruct (Back1 (F || ne d1) y1) as [A1 A2]; [intro; allbool | exact N1 | exact K1 |].
+    destruct (Back2 (F || ne d2) y2) as [B1 B2]; [intro; allbool | exact N2 | exact K2 |].
+    apply R_ok; auto.
+Qed.
+
+(* ============================================================================================ *)
+(* OffsetOperandStub.encode: fixup_label *)
+Lemma fixup_idem t : forall a, fixup a (fst (fixup a t)) = fixup a t.
+Proof.
+  induction t; intros a; try reflexivity.
+  - simpl. destruct (valid_label && a) eqn:E; simpl; [reflexivity | rewrite E; reflexivity].
+  - simpl. destruct (fixup a t1) as [l' a1] eqn:E1. destruct (fixup a1 t2) as [r' a2] eqn:E2. simpl.
+    pose proof (IHt1 a) as I1. rewrite E1 in I1. simpl in I1. rewrite I1.
+    pose proof (IHt2 a1) as I2. rewrite E2 in I2. simpl in I2. rewrite I2. reflexivity.
+  - simpl. destruct (fixup a t) as [e' a1] eqn:E1. simpl.
+    pose proof (IHt a) as I1. rewrite E1 in I1. simpl in I1. rewrite I1. reflexivity.
+  - simpl. destruct (fixup a t) as [e' a1] eqn:E1. simpl.
+    pose proof (IHt a) as I1. rewrite E1 in I1. simpl in I1. rewrite I1. reflexivity.
+  - simpl. destruct (fixup a t1) as [l' a1] eqn:E1. destruct (fixup a1 t2) as [r' a2] eqn:E2. simpl.
+    pose proof (IHt1 a) as I1. rewrite E1 in I1. simpl in I1. rewrite I1.
+    pose proof (IHt2 a1) as I2. rewrite E2 in I2. simpl in I2. rewrite I2. reflexivity.
+Qed.
+
+Lemma fixup_strip t : forall a, fixup a (strip t) = (strip (fst (fixup a t)), snd (fixup a t)).
+Proof.
+  induction t; intros a; try reflexivity.
+  - simpl. destruct (valid_label && a); reflexivity.
+  - simpl. rewrite IHt1. destruct (fixup a t1) as [l' a1]. simpl. rewrite IHt2. destruct (fixup a1 t2) as [r' a2]. reflexivity.
+  - simpl. rewrite IHt. destruct (fixup a t) as [e' a1]. reflexivity.
+  - simpl. rewrite IHt. destruct (fixup a t) as [e' a1]. reflexivity.
+  - simpl. rewrite IHt1. destruct (fixup a t1) as [l' a1]. simpl. rewrite IHt2. destruct (fixup a1 t2) as [r' a2]. reflexivity.
+Qed.
+
+Lemma fixup_coh F t : forall a, coh F t -> coh F (fst (fixup a t)).
+Proof.
+  induction t; intros a H; simpl in *; auto.
+  - destruct (valid_label && a); simpl; auto.
+  - destruct H as [A [B D]]. specialize (IHt1 a A). destruct (fixup a t1) as [l' a1]. simpl in *.
+    specialize (IHt2 a1 B). destruct (fixup a1 t2) as [r' a2]. simpl in *. auto.
+  - destruct H as [A D]. specialize (IHt a A). destruct (fixup a t) as [e' a1]. simpl in *. auto.
+  - destruct H as [A D]. specialize (IHt a A). destruct (fixup a t) as [e' a1]. simpl in *. auto.
+  - destruct H as [A [B D]]. specialize (IHt1 a A). destruct (fixup a t1) as [l' a1]. simpl in *.
+    specialize (IHt2 a1 B). destruct (fixup a1 t2) as [r' a2]. simpl in *. auto.
+Qed.
+
+Definition is_toplabel (t : tree) : bool := match t with Num _ _ true _ _ => true | _ => false end.
+
+Lemma fix_inplace_top txt t : is_toplabel t = true -> fix_inplace txt t = t.
+Proof. destruct t; simpl; try discriminate. destruct valid_label; [reflexivity | discriminate]. Qed.
+
+Lemma fix_inplace_nontop txt t : is_toplabel t = false ->
+  fix_inplace txt t = (if txt then t else fst (fixup true t)).
+Proof. destruct t; simpl; try reflexivity. destruct valid_label; [discriminate | reflexivity]. Qed.
+
+Lemma fixup_toplabel t a : is_toplabel t = false -> is_toplabel (fst (fixup a t)) = false.
+Proof.
+  destruct t; simpl; try reflexivity.
+  - destruct valid_label; [discriminate|]. simpl. reflexivity.
+  - destruct (fixup a t1) as [l' a1]. destruct (fixup a1 t2) as [r' a2]. reflexivity.
+  - destruct (fixup a t) as [e' a1]. reflexivity.
+  - destruct (fixup a t) as [e' a1]. reflexivity.
+  - destruct (fixup a t1) as [l' a1]. destruct (fixup a1 t2) as [r' a2]. reflexivity.
+Qed.
+
+Lemma is_toplabel_strip t : is_toplabel (strip t) = is_toplabel t.
+Proof. destruct t; reflexivity. Qed.
+
+Lemma fix_inplace_toplabel txt t : is_toplabel (fix_inplace txt t) = is_toplabel t.
+Proof.
+  destruct (is_toplabel t) eqn:E.
+  - rewrite fix_inplace_top by exact E. exact E.
+  - rewrite fix_inplace_nontop by exact E. destruct txt; [exact E | apply fixup_toplabel; exact E].
+Qed.
+
+Lemma fix_inplace_strip txt t : strip (fix_inplace txt t) = fix_inplace txt (strip t).
+Proof.
+  destruct (is_toplabel t) eqn:E.
+  - rewrite !fix_inplace_top; [reflexivity | rewrite is_toplabel_strip; exact E | exact E].
+  - rewrite !fix_inplace_nontop; [| rewrite is_toplabel_strip; exact E | exact E].
+    destruct txt; [reflexivity|]. rewrite fixup_strip. reflexivity.
+Qed.
+
+(* fixup_idempotent: running fixup_label again on its own output changes nothing *)
+Lemma fix_inplace_idem txt t : fix_inplace txt (fix_inplace txt t) = fix_inplace txt t.
+Proof.
+  destruct (is_toplabel t) eqn:E.
+  - rewrite !fix_inplace_top; auto. rewrite fix_inplace_top; auto.
+  - rewrite (fix_inplace_nontop txt t E). destruct txt.
+    + apply fix_inplace_nontop. exact E.
+    + rewrite fix_inplace_nontop by (apply fixup_toplabel; exact E).
+      rewrite fixup_idem. reflexivity.
+Qed.
+
+Lemma fix_inplace_coh F txt t : coh F t -> coh F (fix_inplace txt t).
+Proof.
+  intros H. destruct (is_toplabel t) eqn:E.
+  - rewrite fix_inplace_top; auto.
+  - rewrite fix_inplace_nontop by exact E. destruct txt; [exact H | apply fixup_coh; exact H].
+Qed.
+
+Definition brnf (txt : bool) (t : tree) : tree := strip (fix_inplace txt t).
+
+Lemma br_operand_spec txt t :
+  br_operand txt t = match t with Num r _ true _ _ => Sym r true | _ => fix_inplace txt t end.
+Proof. reflexivity. Qed.
+
+Lemma br_operand_nontop txt t : is_toplabel t = false -> br_operand txt t = fix_inplace txt t.
+Proof. destruct t; simpl; try reflexivity. destruct valid_label; [discriminate | reflexivity]. Qed.
+
+Lemma br_back_nontop t s : is_toplabel t = false -> br_back t s = s.
+Proof. destruct t; simpl; try reflexivity. destruct valid_label; [discriminate | reflexivity]. Qed.
+
+Lemma br_back_top t s : is_toplabel t = true -> br_back t s = t.
+Proof. destruct t; simpl; try discriminate. destruct valid_label; [reflexivity | discriminate]. Qed.
+
+Lemma brnf_toplabel txt t1 t2 : brnf txt t1 = brnf txt t2 -> is_toplabel t1 = is_toplabel t2.
+Proof.
+  unfold brnf. intros H.
+  rewrite <- (fix_inplace_toplabel txt t1), <- (fix_inplace_toplabel txt t2).
+  rewrite <- (is_toplabel_strip (fix_inplace txt t1)), <- (is_toplabel_strip (fix_inplace txt t2)), H.
+  reflexivity.
+Qed.
+
+Lemma br_operand_R txt t1 t2 : brnf txt t1 = brnf txt t2 ->
+  strip (br_operand txt t1) = strip (br_operand txt t2).
+Proof.
+  intros H. pose proof (brnf_toplabel _ _ _ H) as Ht.
+  destruct (is_toplabel t1) eqn:E1; symmetry in Ht.
+  - unfold brnf in H. rewrite !fix_inplace_top in H by assumption.
+    destruct t1; simpl in E1; try discriminate. destruct valid_label; [|discriminate].
+    destruct t2; simpl in Ht; try discriminate. destruct valid_label; [|discriminate].
+    simpl in H. inversion H; subst. reflexivity.
+  - rewrite !br_operand_nontop by assumption. exact H.
+Qed.
+
+Lemma br_back_nf txt t s' : strip s' = strip (br_operand txt t) -> brnf txt (br_back t s') = brnf txt t.
+Proof.
+  intros H. destruct (is_toplabel t) eqn:E.
+  - rewrite br_back_top by exact E. reflexivity.
+  - rewrite br_back_nontop by exact E. rewrite br_operand_nontop in H by exact E.
+    unfold brnf. rewrite fix_inplace_strip, H, <- fix_inplace_strip, fix_inplace_idem. reflexivity.
+Qed.
+
+Lemma br_operand_coh F txt t : coh F t -> coh F (br_operand txt t).
+Proof.
+  intros H. destruct (is_toplabel t) eqn:E.
+  - destruct t; simpl in E; try discriminate. destruct valid_label; [exact I | discriminate].
+  - rewrite br_operand_nontop by exact E. apply fix_inplace_coh. exact H.
+Qed.
+
+Lemma br_back_coh F t s' : coh F t -> coh F s' -> coh F (br_back t s').
+Proof.
+  intros H1 H2. destruct (is_toplabel t) eqn:E.
+  - rewrite br_back_top by exact E. exact H1.
+  - rewrite br_back_nontop by exact E. exact H2.
+Qed.
+
+Lemma compile_br_R bits uns txt env dot rel F t1 t2 :
+  brnf txt t1 = brnf txt t2 -> coh F t1 -> coh F t2 ->
+  R (brnf txt) coh F t1 t2 (compile_br bits uns txt env dot rel t1) (compile_br bits uns txt env dot rel t2).
+Proof.
+  intros Hn C1 C2. unfold compile_br.
+  eapply R_bind; [apply (eval_R env dot F _ _ (br_operand_R txt t1 t2 Hn) (br_operand_coh F txt t1 C1) (br_operand_coh F txt t2 C2))|].
+  intros v y1 y2 d1 d2 N1 N2 B K1 K2.
+  destruct (offset_field bits uns (v - rel)) as [f e].
+  apply R_ok.
+  - apply br_back_nf. exact N1.
+  - apply br_back_nf. exact N2.
+  - nebool; allbool.
+  - apply br_back_coh; [eapply coh_le; [|exact C1]; intro; nebool; allbool | coh_weaken].
+  - apply br_back_coh; [eapply coh_le; [|exact C2]; intro; nebool; allbool | coh_weaken].
+Qed.
+
+Lemma compile_imm_R bits uns env dot F t1 t2 :
+  strip t1 = strip t2 -> coh F t1 -> coh F t2 ->
+  R strip coh F t1 t2 (compile_imm bits uns env dot t1) (compile_imm bits uns env dot t2).
+Proof.
+  intros Hs C1 C2.
+  assert (Gen : R strip coh F t1 t2
+                  (do x <- eval env dot t1; let '(v, t', d) := x in
+                   let '(f, d2) := imm_field bits uns v in Ok (f, ([] : list Z), t', d ++ d2))
+                  (do x <- eval env dot t2; let '(v, t', d) := x in
+                   let '(f, d2) := imm_field bits uns v in Ok (f, ([] : list Z), t', d ++ d2))).
+  { eapply R_bind; [apply (eval_R env dot F t1 t2 Hs C1 C2)|].
+    intros v y1 y2 d1 d2 N1 N2 B K1 K2. destruct (imm_field bits uns v) as [f e].
+    apply R_ok; auto; try solve [nebool; allbool]; coh_weaken. }
+  destruct t1; destruct t2; simpl in Hs; try discriminate; try exact Gen.
+  inversion Hs; subst. unfold compile_imm. destruct (op0 =? "#")%string; [|exact Gen].
+  simpl in C1, C2. destruct C1 as [A1 D1]. destruct C2 as [A2 D2].
+  eapply R_bind; [apply (eval_R env dot F t1 t2 H1 A1 A2)|].
+  intros v y1 y2 d1 d2 N1 N2 B K1 K2. destruct (imm_field bits uns v) as [f e].
+  apply R_ok; simpl; try congruence; try solve [nebool; allbool].
+  - split; [coh_weaken|]. intros P. eapply cache_ok_le; [|apply (D1 P)]. intro; nebool; allbool.
+  - split; [coh_weaken|]. intros P. eapply cache_ok_le; [|apply (D2 P)]. intro; nebool; allbool.
+Qed.
+
+Lemma compile_reg_R F t1 t2 :
+  strip t1 = strip t2 -> coh F t1 -> coh F t2 ->
+  R strip coh F t1 t2 (compile_reg t1) (compile_reg t2).
+Proof.
+  intros Hs C1 C2. unfold compile_reg.
+  rewrite <- (is_percent_strip t1), <- (is_percent_strip t2), <- (regp_strip t1), <- (regp_strip t2), Hs.
+  destruct (is_percent (strip t2)); [reflexivity|].
+  destruct (regp (strip t2)); [|reflexivity].
+  apply R_ok; auto; (eapply coh_le; [|eassumption]; intro; allbool).
+Qed.
+
+(* the stored form of one operand that later compilations depend on *)
+Definition nf_slot (s : slot) (t : tree) : tree :=
+  match s with SBr _ _ txt => brnf txt t | _ => strip t end.
+
+Lemma compile_slot_R env dot rel F s t1 t2 :
+  nf_slot s t1 = nf_slot s t2 -> coh F t1 -> coh F t2 ->
+  R (nf_slot s) coh F t1 t2 (compile_slot env dot rel s t1) (compile_slot env dot rel s t2).
+Proof.
+  destruct s; simpl; intros Hn C1 C2.
+  - apply compile_rm_R; assumption.
+  - apply compile_reg_R; assumption.
+  - apply compile_br_R; assumption.
+  - apply compile_imm_R; assumption.
+Qed.
+
+(* ============================================================================================ *)
+(* operand lists *)
+Definition nf_ops (ops : list (slot * tree)) : list (slot * tree) :=
+  map (fun p => (fst p, nf_slot (fst p) (snd p))) ops.
+Fixpoint coh_ops (F : bool) (ops : list (slot * tree)) : Prop :=
+  match ops with [] => True | p :: r => coh F (snd p) /\ coh_ops F r end.
+Fixpoint coh_list (F : bool) (ts : list tree) : Prop :=
+  match ts with [] => True | t :: r => coh F t /\ coh_list F r end.
+
+Lemma coh_ops_le F F' ops : (F = true -> F' = true) -> coh_ops F ops -> coh_ops F' ops.
+Proof. intros L. induction ops; simpl; auto. intros [A B]. split; [eapply coh_le; eauto | auto]. Qed.
+Lemma coh_list_le F F' ts : (F = true -> F' = true) -> coh_list F ts -> coh_list F' ts.
+Proof. intros L. induction ts; simpl; auto. intros [A B]. split; [eapply coh_le; eauto | auto]. Qed.
+
+Lemma compile_ops_R env dot F : forall ops1 ops2 enc_len,
+  nf_ops ops1 = nf_ops ops2 -> coh_ops F ops1 -> coh_ops F ops2 ->
+  R nf_ops coh_ops F ops1 ops2 (compile_ops env dot enc_len ops1) (compile_ops env dot enc_len ops2).
+Proof.
+  induction ops1 as [|[s1 t1] r1 IH]; intros [|[s2 t2] r2] enc_len Hn C1 C2; simpl in Hn; try discriminate.
+  - simpl. auto 10.
+  - inversion Hn; subst s2. clear Hn. rename H1 into Ht. rename H2 into Hr.
+    simpl in C1, C2. destruct C1 as [A1 B1]. destruct C2 as [A2 B2].
+    cbn [compile_ops].
+    eapply R_bind; [apply (compile_slot_R env dot (dot + 2 + enc_len) F s1 t1 t2 Ht A1 A2)|].
+    intros [f ext] y1 y2 d1 d2 N1 N2 B K1 K2.
+    eapply R_bind; [apply (IH r2 (enc_len + Zlen ext) Hr B1 B2)|].
+    intros [opc exts] z1 z2 e1 e2 M1 M2 B' L1 L2.
+    apply R_ok.
+    + simpl. rewrite N1. fold (nf_ops z1). fold (nf_ops r1). rewrite M1. reflexivity.
+    + simpl. rewrite N2. fold (nf_ops z2). fold (nf_ops r2). rewrite M2. reflexivity.
+    + nebool; allbool.
+    + simpl. split; [coh_weaken | eapply coh_ops_le; [|exact L1]; intro; nebool; allbool].
+    + simpl. split; [coh_weaken | eapply coh_ops_le; [|exact L2]; intro; nebool; allbool].
+Qed.
+
+Lemma cook_R bits uns env dot F : forall ts1 ts2,
+  map strip ts1 = map strip ts2 -> coh_list F ts1 -> coh_list F ts2 ->
+  R (map strip) coh_list F ts1 ts2 (cook bits uns env dot ts1) (cook bits uns env dot ts2).
+Proof.
+  induction ts1 as [|t1 r1 IH]; intros [|t2 r2] Hn C1 C2; simpl in Hn; try discriminate.
+  - simpl. auto 10.
+  - inversion Hn. clear Hn. rename H0 into Ht. rename H1 into Hr.
+    simpl in C1, C2. destruct C1 as [A1 B1]. destruct C2 as [A2 B2].
+    cbn [cook]. pose proof (eval_R env dot F t1 t2 Ht A1 A2) as E.
+    destruct (eval env dot t1) as [[[v1 y1] d1]|e1|s1|]; destruct (eval env dot t2) as [[[v2 y2] d2]|e2|s2|];
+      simpl in E; try tauto.
+    + destruct E as [Ev [N1 [N2 [B [K1 K2]]]]]. subst v2.
+      destruct (GenGetAsInt.get_as_int bits uns None v1) as [w|ids|s|].
+      * eapply R_bind; [apply (IH r2 Hr B1 B2)|].
+        intros ws z1 z2 e1 e2 M1 M2 B' L1 L2.
+        apply R_ok.
+        -- simpl. rewrite N1, M1. reflexivity.
+        -- simpl. rewrite N2, M2. reflexivity.
+        -- nebool; allbool.
+        -- simpl. split; [coh_weaken | eapply coh_list_le; [|exact L1]; intro; nebool; allbool].
+        -- simpl. split; [coh_weaken | eapply coh_list_le; [|exact L2]; intro; nebool; allbool].
+      * apply R_ok.
+        -- simpl. rewrite N1. reflexivity.
+        -- simpl. rewrite N2. reflexivity.
+        -- nebool; allbool.
+        -- simpl. split; [coh_weaken | eapply coh_list_le; [|exact B1]; intro; nebool; allbool].
+        -- simpl. split; [coh_weaken | eapply coh_list_le; [|exact B2]; intro; nebool; allbool].
+      * reflexivity.
+      * exact I.
+    + subst e2. apply R_ok; auto.
+      * simpl. split; [eapply coh_le; [|exact A1]; intro; allbool | eapply coh_list_le; [|exact B1]; intro; allbool].
+      * simpl. split; [eapply coh_le; [|exact A2]; intro; allbool | eapply coh_list_le; [|exact B2]; intro; allbool].
+Qed.
+
+(* ============================================================================================ *)
+(* statements and blocks *)
+Fixpoint nf_item (it : item) : item :=
+  match it with
+  | IWord ops => IWord (map strip ops)
+  | IByte ops => IByte (map strip ops)
+  | IEven => IEven
+  | IInsn base ops => IInsn base (nf_ops ops)
+  | IRepeat cnt body => IRepeat (strip cnt) (map nf_item body)
+  | IEnd => IEnd
+  end.
+Definition nf_block (b : list item) : list item := map nf_item b.
+
+Fixpoint coh_item (F : bool) (it : item) : Prop :=
+  match it with
+  | IWord ops => coh_list F ops
+  | IByte ops => coh_list F ops
+  | IInsn _ ops => coh_ops F ops
+  | IRepeat cnt body => coh F cnt /\ fold_right (fun i P => coh_item F i /\ P) True body
+  | _ => True
+  end.
+Definition coh_block (F : bool) (b : list item) : Prop := fold_right (fun i P => coh_item F i /\ P) True b.
+
+Lemma coh_item_le F F' (L : F = true -> F' = true) : forall it, coh_item F it -> coh_item F' it.
+Proof.
+  fix IH 1. intros it. destruct it; simpl; auto.
+  - apply coh_list_le; exact L.
+  - apply coh_list_le; exact L.
+  - apply coh_ops_le; exact L.
+  - intros [A B]. split; [eapply coh_le; eauto|].
+    induction body as [|i r IHr]; simpl in *; auto. destruct B as [B1 B2]. split; [apply IH; exact B1 | apply IHr; exact B2].
+Qed.
+
+Lemma coh_block_le F F' b : (F = true -> F' = true) -> coh_block F b -> coh_block F' b.
+Proof.
+  intros L. induction b as [|i r IH]; simpl; auto. intros [A B]. split; [eapply coh_item_le; eauto | auto].
+Qed.
+
+Definition rec_ok (rec : list item -> Z -> result) : Prop :=
+  forall F b1 b2 a, nf_block b1 = nf_block b2 -> coh_block F b1 -> coh_block F b2 ->
+    R nf_block coh_block F b1 b2 (rec b1 a) (rec b2 a).
+
+Lemma loop_R rec : rec_ok rec -> forall n, rec_ok (loop rec n).
+Proof.
+  intros Hrec. induction n as [|k IH]; intros F b1 b2 a Hn C1 C2; cbn [loop].
+  - apply R_ok; auto; (eapply coh_block_le; [|eassumption]; intro; allbool).
+  - eapply R_bind; [apply (Hrec F b1 b2 a Hn C1 C2)|].
+    intros bs y1 y2 d1 d2 N1 N2 B K1 K2.
+    assert (K2' : coh_block (F || ne d1) y2) by (rewrite B; exact K2).
+    eapply R_bind; [apply (IH (F || ne d1) y1 y2 (a + Zlen bs)); [congruence | exact K1 | exact K2']|].
+    intros bs2 z1 z2 e1 e2 M1 M2 B' L1 L2.
+    apply R_ok; try congruence.
+    + nebool; allbool.
+    + eapply coh_block_le; [|exact L1]. intro; nebool; allbool.
+    + eapply coh_block_le; [|exact L2]. intro; nebool; allbool.
+Qed.
+
+Lemma map_strip_single (y : list tree) c : map strip y = map strip [c] -> exists c', y = [c'] /\ strip c' = strip c.
+Proof.
+  destruct y as [|c' [|x r]]; simpl; intros H; try discriminate. inversion H. exists c'. auto.
+Qed.
+
+Lemma compile_item_R rec env : rec_ok rec -> forall F it1 it2 a,
+  nf_item it1 = nf_item it2 -> coh_item F it1 -> coh_item F it2 ->
+  R nf_item coh_item F it1 it2 (compile_item rec env a it1) (compile_item rec env a it2).
+Proof.
+  intros Hrec F it1 it2 a Hn C1 C2.
+  destruct it1; destruct it2; simpl in Hn; try discriminate; inversion Hn; clear Hn.
+  - (* IWord *)
+    simpl in C1, C2. cbn [compile_item].
+    eapply R_bind; [apply (cook_R (Some 16) false env a F ops ops0 H0 C1 C2)|].
+    intros ws y1 y2 d1 d2 N1 N2 B K1 K2.
+    destruct ws; (apply R_ok; [simpl; congruence | simpl; congruence | nebool; allbool | | ]); simpl;
+      (eapply coh_list_le; [|eassumption]; intro; nebool; allbool).
+  - (* IByte *)
+    simpl in C1, C2. cbn [compile_item].
+    eapply R_bind; [apply (cook_R (Some 8) false env a F ops ops0 H0 C1 C2)|].
+    intros ws y1 y2 d1 d2 N1 N2 B K1 K2.
+    destruct ws; (apply R_ok; [simpl; congruence | simpl; congruence | nebool; allbool | | ]); simpl;
+      (eapply coh_list_le; [|eassumption]; intro; nebool; allbool).
+  - (* IEven *)
+    cbn [compile_item]. apply R_ok; simpl; auto.
+  - (* IInsn *)
+    subst base0. simpl in C1, C2. cbn [compile_item].
+    eapply R_bind; [apply (compile_ops_R env a F ops ops0 0 H1 C1 C2)|].
+    intros [opc exts] y1 y2 d1 d2 N1 N2 B K1 K2.
+    apply R_ok; simpl; try congruence.
+  - (* IRepeat *)
+    simpl in C1, C2. destruct C1 as [A1 B1]. destruct C2 as [A2 B2]. cbn [compile_item].
+    assert (Hc : map strip [cnt] = map strip [cnt0]) by (simpl; congruence).
+    eapply R_bind; [apply (cook_R None true env a F [cnt] [cnt0] Hc (conj A1 I) (conj A2 I))|].
+    intros ws y1 y2 d1 d2 N1 N2 B K1 K2.
+    destruct (map_strip_single _ _ N1) as [c1 [E1 S1]]. destruct (map_strip_single _ _ N2) as [c2 [E2 S2]].
+    subst y1 y2. simpl in K1, K2. destruct K1 as [K1 _]. destruct K2 as [K2 _].
+    assert (Hb : nf_block body = nf_block body0) by exact H1.
+    assert (Fallback : R nf_item coh_item F (IRepeat cnt body) (IRepeat cnt0 body0)
+                         (Ok (([] : list Z), IRepeat c1 body, d1)) (Ok (([] : list Z), IRepeat c2 body0, d2))).
+    { apply R_ok; simpl; try congruence.
+      - split; [exact K1|]. eapply (coh_block_le F); [|exact B1]. intro; allbool.
+      - split; [exact K2|]. eapply (coh_block_le F); [|exact B2]. intro; allbool. }
+    destruct ws as [[|n [|x r]]|]; try exact Fallback.
+    assert (B2' : coh_block (F || ne d1) body0) by (eapply coh_block_le; [|exact B2]; intro; allbool).
+    assert (B1' : coh_block (F || ne d1) body) by (eapply coh_block_le; [|exact B1]; intro; allbool).
+    eapply R_bind; [apply (loop_R rec Hrec (Z.to_nat n) (F || ne d1) body body0 a Hb B1' B2')|].
+    intros bs z1 z2 e1 e2 M1 M2 B' L1 L2.
+    apply R_ok.
+    + simpl. f_equal; [exact S1 | exact M1].
+    + simpl. f_equal; [exact S2 | exact M2].
+    + nebool; allbool.
+    + simpl. split; [coh_weaken | eapply (coh_block_le _ _ z1); [|exact L1]; intro; nebool; allbool].
+    + simpl. split; [coh_weaken | eapply (coh_block_le _ _ z2); [|exact L2]; intro; nebool; allbool].
+  - (* IEnd *)
+    cbn [compile_item]. apply R_ok; simpl; auto.
+Qed.
+
+Lemma nf_item_end it : nf_item it = IEnd -> it = IEnd.
+Proof. destruct it; simpl; intros H; try discriminate. reflexivity. Qed.
+
+Lemma block_R rec env : rec_ok rec -> rec_ok (block rec env).
+Proof.
+  intros Hrec F b1. revert F. induction b1 as [|i1 r1 IH]; intros F [|i2 r2] a Hn C1 C2; simpl in Hn; try discriminate.
+  - simpl. auto 10.
+  - inversion Hn. clear Hn. rename H0 into Hi. rename H1 into Hr.
+    simpl in C1, C2. destruct C1 as [A1 B1]. destruct C2 as [A2 B2].
+    assert (Step : R nf_block coh_block F (i1 :: r1) (i2 :: r2)
+              (do x <- compile_item rec env a i1; let '(bs, it', d) := x in
+               do y <- block rec env r1 (a + Zlen bs); let '(bs2, rest', d2) := y in
+               Ok (bs ++ bs2, it' :: rest', d ++ d2))
+              (do x <- compile_item rec env a i2; let '(bs, it', d) := x in
+               do y <- block rec env r2 (a + Zlen bs); let '(bs2, rest', d2) := y in
+               Ok (bs ++ bs2, it' :: rest', d ++ d2))).
+    { eapply R_bind; [apply (compile_item_R rec env Hrec F i1 i2 a Hi A1 A2)|].
+      intros bs y1 y2 d1 d2 N1 N2 B K1 K2.
+      assert (B2' : coh_block (F || ne d1) r2) by (eapply coh_block_le; [|exact B2]; intro; allbool).
+      assert (B1' : coh_block (F || ne d1) r1) by (eapply coh_block_le; [|exact B1]; intro; allbool).
+      eapply R_bind; [apply (IH (F || ne d1) r2 (a + Zlen bs) Hr B1' B2')|].
+      intros bs2 z1 z2 e1 e2 M1 M2 B' L1 L2.
+      apply R_ok.
+      - simpl. rewrite N1. fold (nf_block z1). fold (nf_block r1). rewrite M1. reflexivity.
+      - simpl. rewrite N2. fold (nf_block z2). fold (nf_block r2). rewrite M2. reflexivity.
+      - nebool; allbool.
+      - simpl. split; [eapply coh_item_le; [|exact K1]; intro; nebool; allbool
+                      | eapply (coh_block_le _ _ z1); [|exact L1]; intro; nebool; allbool].
+      - simpl. split; [eapply coh_item_le; [|exact K2]; intro; nebool; allbool
+                      | eapply (coh_block_le _ _ z2); [|exact L2]; intro; nebool; allbool]. }
+    destruct i1; destruct i2; simpl in Hi; try discriminate; try exact Step.
+    (* IEnd / IEnd *)
+    cbn [block]. apply R_ok; auto; simpl; split; auto; (eapply coh_block_le; [|eassumption]; intro; allbool).
+Qed.
+
+Lemma compile_block_R env : forall fuel, rec_ok (compile_block fuel env).
+Proof.
+  induction fuel as [|f IH].
+  - intros F b1 b2 a _ _ _. exact I.
+  - cbn [compile_block]. apply block_R. exact IH.
+Qed.
+
+(* ============================================================================================ *)
+(* '.repeat n { body }' = the body written out n times *)
+Definition top_end (b : list item) : bool := existsb (fun i => match i with IEnd => true | _ => false end) b.
+
+Lemma has_end_top b : has_end b = false -> top_end b = false.
+Proof.
+  unfold has_end, top_end. induction b as [|i r IH]; simpl; [reflexivity|].
+  intros H. apply orb_false_iff in H. destruct H as [H1 H2]. rewrite (IH H2).
+  destruct i; simpl in *; try reflexivity. discriminate.
+Qed.
+
+Lemma block_app rec env b1 b2 : top_end b1 = false -> forall a,
+  block rec env (b1 ++ b2) a =
+  (do x <- block rec env b1 a; let '(bs, b1', d) := x in
+   do y <- block rec env b2 (a + Zlen bs); let '(bs2, b2', d2) := y in
+   Ok (bs ++ bs2, b1' ++ b2', d ++ d2)).
+Proof.
+  induction b1 as [|i r IH]; intros Ht a.
+  - simpl. replace (a + Zlen []) with a by (unfold Zlen; simpl; lia).
+    destruct (block rec env b2 a) as [[[bs b'] d]| | |]; reflexivity.
+  - simpl in Ht. apply orb_false_iff in Ht. destruct Ht as [Hi Hr].
+    assert (Step : block rec env ((i :: r) ++ b2) a =
+                   (do x <- compile_item rec env a i; let '(bs, it', d) := x in
+                    do y <- block rec env (r ++ b2) (a + Zlen bs); let '(bs2, rest', d2) := y in
+                    Ok (bs ++ bs2, it' :: rest', d ++ d2))).
+    { destruct i; try reflexivity. discriminate. }
+    assert (Step1 : block rec env (i :: r) a =
+                   (do x <- compile_item rec env a i; let '(bs, it', d) := x in
+                    do y <- block rec env r (a + Zlen bs); let '(bs2, rest', d2) := y in
+                    Ok (bs ++ bs2, it' :: rest', d ++ d2))).
+    { destruct i; try reflexivity. discriminate. }
+    rewrite Step, Step1.
+    destruct (compile_item rec env a i) as [[[bs it'] d]| | |]; cbn [bind]; try reflexivity.
+    rewrite (IH Hr).
+    destruct (block rec env r (a + Zlen bs)) as [[[bs1 r'] d1]| | |]; cbn [bind]; try reflexivity.
+    replace (a + Zlen (bs ++ bs1)) with (a + Zlen bs + Zlen bs1)
+      by (unfold Zlen; rewrite app_length, Nat2Z.inj_add; lia).
+    destruct (block rec env b2 (a + Zlen bs + Zlen bs1)) as [[[bs2 b2'] d2]| | |]; cbn [bind]; try reflexivity.
+    rewrite !app_assoc. reflexivity.
+Qed.
+
+(* same bytes, and an error has been reported in one run iff in the other *)
+Definition Rout (F : bool) (r1 r2 : result) : Prop :=
+  match r1, r2 with
+  | Ok (bs1, _, d1), Ok (bs2, _, d2) => bs1 = bs2 /\ (F || ne d1 = F || ne d2)
+  | Err _, Err _ => True
+  | Crash s1, Crash s2 => s1 = s2
+  | OutOfFuel, OutOfFuel => True
+  | _, _ => False
+  end.
+
+Lemma repeat_unroll_gen rec env body : rec_ok rec -> top_end body = false ->
+  forall n F b a, nf_block b = nf_block body -> coh_block F b -> coh_block F body ->
+    Rout F (loop (block rec env) n b a) (block rec env (written_out n body) a).
+Proof.
+  intros Hrec Ht. induction n as [|k IH]; intros F b a Hn C1 C2.
+  - simpl. auto.
+  - unfold written_out. cbn [repeat List.concat]. fold (written_out k body).
+    rewrite (block_app rec env body (written_out k body) Ht). cbn [loop].
+    pose proof (block_R rec env Hrec F b body a Hn C1 C2) as E.
+    destruct (block rec env b a) as [[[bs1 y1] d1]|e1|s1|]; destruct (block rec env body a) as [[[bs2 y2] d2]|e2|s2|];
+      simpl in E; try tauto; cbn [bind]; simpl; auto.
+    destruct E as [Eb [N1 [N2 [B [K1 K2]]]]]. subst bs2.
+    assert (C2' : coh_block (F || ne d1) body) by (eapply coh_block_le; [|exact C2]; intro; allbool).
+    assert (Hn' : nf_block y1 = nf_block body) by congruence.
+    specialize (IH (F || ne d1) y1 (a + Zlen bs1) Hn' K1 C2').
+    destruct (loop (block rec env) k y1 (a + Zlen bs1)) as [[[bs3 z1] e1]|e1|s1|];
+      destruct (block rec env (written_out k body) (a + Zlen bs1)) as [[[bs4 z2] e2]|e2|s2|];
+      simpl in IH; try tauto; cbn [bind]; simpl; auto.
+    destruct IH as [Eb' B']. subst bs4. simpl. split; [reflexivity|]. nebool; allbool.
+Qed.
+
+Lemma coh_list_strip F ops : coh_list F (map strip ops).
+Proof. induction ops; simpl; auto. split; [apply coh_strip | exact IHops]. Qed.
+
+Lemma coh_ops_nf F ops : coh_ops F (nf_ops ops).
+Proof.
+  induction ops as [|[s t] r IH]; simpl; auto. split; [|exact IH].
+  destruct s; simpl; apply coh_strip.
+Qed.
+
+Lemma coh_item_nf F : forall it, coh_item F (nf_item it).
+Proof.
+  fix IH 1. intros it. destruct it; simpl; auto.
+  - apply coh_list_strip.
+  - apply coh_list_strip.
+  - apply coh_ops_nf.
+  - split; [apply coh_strip|]. induction body as [|i r IHr]; simpl; auto.
+Qed.
+
+Lemma coh_block_nf F b : coh_block F (nf_block b).
+Proof. induction b as [|i r IH]; simpl; auto. split; [apply coh_item_nf | exact IH]. Qed.
+
+(* a body as the parser makes it (nothing written on it yet) is coherent in every state *)
+Lemma coh_block_fresh F b : nf_block b = b -> coh_block F b.
+Proof. intros H. rewrite <- H. apply coh_block_nf. Qed.
+
+Lemma repeat_unroll f env n body a :
+  has_end body = false -> coh_block false body ->
+  outcome_of (repeat_model (S f) env n body a) = outcome_of (unrolled (S f) env n body a).
+Proof.
+  intros He Hc. unfold repeat_model, unrolled. cbn [compile_block].
+  pose proof (repeat_unroll_gen (compile_block f env) env body (compile_block_R env f) (has_end_top body He)
+                n false body a eq_refl Hc Hc) as H.
+  destruct (loop (block (compile_block f env) env) n body a) as [[[bs1 z1] d1]|e1|s1|];
+    destruct (block (compile_block f env) env (written_out n body) a) as [[[bs2 z2] d2]|e2|s2|];
+    simpl in H; try tauto; simpl; try congruence.
+  destruct H as [E B]. subst. destruct d1, d2; simpl in *; congruence.
+Qed.
+
+(* ============================================================================================ *)
+(* corollaries in the form used by Props/C16.v *)
+
+(* same value, and the assembly has failed after one run iff after the other *)
+Definition same_result {V X : Type} (F : bool) (r1 r2 : res (V * X * list string)) : Prop :=
+  match r1, r2 with
+  | Ok (v1, _, d1), Ok (v2, _, d2) => v1 = v2 /\ (F || ne d1 = F || ne d2)
+  | Err e1, Err e2 => e1 = e2
+  | Crash s1, Crash s2 => s1 = s2
+  | OutOfFuel, OutOfFuel => True
+  | _, _ => False
+  end.
+
+Lemma R_same {V X : Type} (nf : X -> X) (cohx : bool -> X -> Prop) F x1 x2 (r1 r2 : res (V * X * list string)) :
+  R nf cohx F x1 x2 r1 r2 -> same_result F r1 r2.
+Proof.
+  destruct r1 as [[[v1 y1] d1]| | |]; destruct r2 as [[[v2 y2] d2]| | |]; simpl; try tauto.
+Qed.
+
+Lemma flags_only_affect_diagnostics env dot F t1 t2 :
+  strip t1 = strip t2 -> coh F t1 -> coh F t2 ->
+  same_result F (eval env dot t1) (eval env dot t2).
+Proof. intros. eapply R_same. apply eval_R; assumption. Qed.
+
+Lemma body_annotations_irrelevant fuel env F b1 b2 a :
+  nf_block b1 = nf_block b2 -> coh_block F b1 -> coh_block F b2 ->
+  same_result F (compile_block fuel env b1 a) (compile_block fuel env b2 a).
+Proof. intros. eapply R_same. apply compile_block_R; assumption. Qed.
+
+(* a hit returns what a recomputation (empty cache) returns *)
+Lemma cache_hit_is_recomputation F inv c args :
+  cache_ok F inv c -> same_result F (use_cache false c args inv) (use_cache false None args inv).
+Proof.
+  intros H. eapply R_same. apply (use_cache_R false inv F c None args); unfold ccoh; intros _; [exact H | exact I].
+Qed.
+
+Lemma fixup_same_encoding bits uns txt env dot rel F t :
+  coh F t ->
+  same_result F (compile_br bits uns txt env dot rel (fix_inplace txt t)) (compile_br bits uns txt env dot rel t).
+Proof.
+  intros H. eapply R_same. apply compile_br_R.
+  - unfold brnf. rewrite fix_inplace_idem. reflexivity.
+  - apply fix_inplace_coh. exact H.
+  - exact H.
+Qed.
+
+(* the hoisted operand is compiled as index mode on the re-associated offset *)
+Lemma hoist_index_mode ctx b rn r c0 :
+  ctx <> [] -> reg_of_name rn = Some r ->
+  (forall op c rest, ctx = FPrefix op c :: rest -> String.eqb op "@" = false) ->
+  classify (plug ctx (Call b (Sym rn false) c0)) = (48 + r, EGai, [], Some (plug ctx b)).
+Proof.
+  intros Hne Hr Hat.
+  assert (Hreg : is_regish (Sym rn false) = true) by (unfold is_regish; simpl; rewrite Hr; reflexivity).
+  pose proof (hoist_classification ctx b (Sym rn false) c0 Hreg Hne) as Hh.
+  destruct ctx as [|[op l c|op c] rest]; [congruence| |]; cbn [plug] in *.
+  - unfold classify. rewrite Hh. cbn [regp]. rewrite Hr. reflexivity.
+  - unfold classify. rewrite Hh. cbn [regp]. rewrite Hr. rewrite (Hat op c rest eq_refl). reflexivity.
 Qed.
